@@ -7,6 +7,9 @@ CLAIMED = {
  "C01": {"text": "The adcgen-owned core of the Wick evaluation is proved from the real source for all inputs: _contraction equals the two-operator vacuum expectation value on the full abstract domain (operator kinds x index spaces, incl. the fresh-index delta for general indices); the counting prefilter computes exactly its specification (loop invariant over an arbitrary-length operator string, with the aliasing `counter = create`); _contract_operator_string computes the first-operator Wick expansion (loop invariant: accumulated sum = prefix of the expansion; sign rule, slice, recursion on the remainder with a decreasing measure).",
          "design_ref": "5.C01", "technique": TECH,
          "note": "Wick's theorem is the SPECIFICATION of vev (trusted); the prefilter-implies-zero lemma is proved only in its inductive step; sympy Add/Mul/doit/expand assumed; `wicks` glue, Rules.apply and NO groups only by the bounded stand-in wicks.value (explicit Fock-space evaluation, <= 6 operators); known finding: NO groups with general indices crash"},
+ "C06": {"text": "Proved from the real source: sort_idx_canonical's key without its hash component is injective on registered indices (relational obligation by self-composition; abstract name model letter + digit string, so leading zeros and bare names are covered); _need_bra_ket_swap never exchanges different tuples in both directions and is total on different tuples (ranks 1-3, all spaces/spins/names symbolically); AntiSymmetricTensor.__new__/SymmetricTensor.__new__ give the same canonical object with the sign prescribed by the symmetry for transposed upper/lower pairs and exchanged bra/ket (ranks <= 2 per group), zero iff an index repeats in an antisymmetric group, Inputerror/NotImplementedError exactly as documented; KroneckerDelta.eval is 1 iff identical, 0 iff ranges disjoint, and both argument orders give the same object; _eval_power.",
+         "design_ref": "5.C06", "technique": TECH,
+         "note": "assumed: sympy _sort_anticommuting_fermions contract (modelled, ranks <= 2 per group), registry uniqueness (C19), sympy is_zero/fuzzy_not on Dummy differences, CPython hash arbitrary; Expr assumption setters (make_real/set_sym_tensors) only by the bounded stand-in Expr.assumptions; ranks > 3 (swap) / > 2 (constructors) only bounded (tensor.constructors)"},
 }
 NOT_APPLICABLE = {
  "C12": "identity between ~25 hand-typed closed formulas and derived quantities: a property of data decided by computation, not a pre/postcondition of any function within the verifier's reach (DESIGN section 6)",
